@@ -219,7 +219,8 @@ class C20(Scenario):
             # UFL's own algorithms have been used in this process before any type is
             # registered (module-level tables filled on first use)
             for _ in range(rng.randint(2, 7)):
-                units.append({"n": 0, "k": "applyreal", "op": ["applyreal", None, rng.choice(REAL_ALGS), rng.choice(KIT_ALL + [21, 22])]})
+                alg = rng.choice(REAL_ALGS) if rng.random() < 0.5 else rng.choice(["apply_algebra_lowering", "expand_derivatives", "estimate_degree", "apply_geometry_lowering", "remove_complex_nodes"])
+                units.append({"n": 0, "k": "applyreal", "op": ["applyreal", None, alg, rng.choice(KIT_ALL + [21, 22])]})
             n_target += len(units)
         while len(units) < n_target:
             if phases is not None:
@@ -363,7 +364,13 @@ class C20(Scenario):
                 pool = [e[0] for e in exprs] * 4 + KIT_ALL
                 e = rng.choice(pool)
                 alg = rng.choice(REAL_ALGS)
-                if rng.random() < 0.4:
+                kinds_ = {t[4] for t in types for e_ in exprs if e_[0] == e and t[0] in e_[1]}
+                if any(k_.startswith("cmp:") for k_ in kinds_) and rng.random() < 0.6:
+                    # a late type that inherits a rule of the compound-algebra / derivative passes
+                    alg = rng.choice(["apply_algebra_lowering", "apply_algebra_lowering", "expand_derivatives", "estimate_degree"])
+                elif "geo" in kinds_ and rng.random() < 0.5:
+                    alg = "apply_geometry_lowering"
+                elif rng.random() < 0.4:
                     # the passes every form goes through on its way to a form compiler
                     alg = rng.choice(["apply_algebra_lowering", "expand_derivatives", "estimate_degree", "remove_complex_nodes", "renumber_indices", "apply_geometry_lowering"])
                 units.append({"n": 0, "k": "applyreal", "op": ["applyreal", None, alg, e]})
